@@ -1328,6 +1328,19 @@ def _analyse_own(chk):
     chk.guard(rule_ueg, py)
     chk.guard(rule_delegate_forward)
     chk.guard(rule_inverse_pairs, tus)
+
+    def _sph(c):
+        # sph_harm.c is anchored by C02 as well ("real spherical harmonics"): the harmonicity rule lives in checks/c06.py
+        import importlib
+        c06 = importlib.import_module("checks.c06")
+        tu_s = cfacts.TU(c.tree, c06.C_SPH)
+        tc.load_enums(tu_s, c.tree)
+        c06.rule_sph_harmonic(c, {c06.C_SPH: tu_s})
+
+    chk.guard(_sph)
+    chk.rule("sph-harmonic", "every Y_lm generated by recursive_sph_harm + setup_sph_harm_buffer is a harmonic polynomial of "
+                             "degree l (shared with C06)")
+    chk.floor("sph-harmonic", 25, "49 values for lmax = 6")
     chk.floor("inverse-pair", 3, "spline scale, derivative scale, clip bound, etb and zexp ladders (5 today)")
     chk.floor("chain-j", 8, "4 j specs + 4 k specs (alias) x 2 layouts, minus nothing; 16 today")
     chk.floor("chain-j-twin", 2, "4 case values")
@@ -1416,6 +1429,8 @@ def mutants(tree):
         Mutant("version-j orders initialised to 1", F_CONV, "        for (ia = 0; ia < nalpha; ia++) {\n            ccl->feat_orders[offset] = 0;",
                "        for (ia = 0; ia < nalpha; ia++) {\n            ccl->feat_orders[offset] = 1;", expect="feat-orders"),
         Mutant("gga exponent delegates without nspin", SETTINGS, fn=_gga_delegates, expect="delegate-forward"),
+        Mutant("coef0 table loses its last admissible entry", cfacts.LIB + "/mod_cider/sph_harm.c", "if (m + 2 <= l) {", "if (m + 2 < l) {",
+               expect="sph-harmonic"),
         Mutant("knot-index scaling off by one", PLANS, "di[:] *= (self._spline_size - 1) / (self.nalpha - 1)",
                "di[:] *= self._spline_size / self.nalpha", expect="inverse-pair"),
         Mutant("knot layout off by one", PLANS, "interp_indexes * (self.nalpha - 1) / (self._spline_size - 1)",
